@@ -10,6 +10,7 @@ import (
 // two concat calls, so nothing the implementation does to its inputs can leak into another call).
 type sym[T any] struct {
 	label  string
+	canon  string // canonical rendering of the chunk (filled in lazily)
 	mk     func() T
 	absent bool     // a nil chunk (nil message / nil slice / nil map / nil pointer): not counted as a real chunk
 	feats  []string // features of the chunk that a failure can be attributed to (see classify)
@@ -17,8 +18,9 @@ type sym[T any] struct {
 
 // entry is one public way of concatenating a chunk sequence of type T.
 type entry[T any] struct {
-	name string
-	f    func([]T) (T, error)
+	name   string
+	f      func([]T) (T, error)
+	sameAs string // see Eval: judged by agreement with this (direct) entry instead of by its own re-chunkings
 }
 
 // res is the observation of one concat call.
@@ -135,8 +137,11 @@ func (f *fam[T]) Canon(seq []int) string {
 	var b strings.Builder
 	var t T
 	fmt.Fprintf(&b, "%T|", t)
-	for _, v := range f.build(seq) {
-		b.WriteString(render(v))
+	for _, s := range seq {
+		if f.syms[s].canon == "" {
+			f.syms[s].canon = render(f.syms[s].mk())
+		}
+		b.WriteString(f.syms[s].canon)
 		b.WriteByte('|')
 	}
 	return b.String()
@@ -168,6 +173,10 @@ func call[T any](st *stats, fn func([]T) (T, error), in []T) (r res[T]) {
 //	    concat(concat(c[:i]) ++ c[i:]) fails iff concat(c) fails and, when both succeed, they are equal;
 //	(4) when concat(c) succeeds, the model of the stated content (text / arguments in arrival order,
 //	    fragments merged by index) agrees.
+//
+// An entry with sameAs != "" (the compiled graph) is judged by (1), (2), (4) and, instead of running (3) through
+// the graph again, by agreement with the named direct entry on the same chunk sequence (equal values or both
+// fail): the concatenation is one function of the chunk sequence, whichever part of the framework performs it.
 func (f *fam[T]) Eval(seq []int, reps int, st *stats) []failure {
 	var fails []failure
 	add := func(kind, entry, format string, a ...any) {
@@ -175,10 +184,28 @@ func (f *fam[T]) Eval(seq []int, reps int, st *stats) []failure {
 	}
 	n := len(seq)
 	st.lastOutcome = ""
+	type refT struct {
+		r      res[T]
+		canon  string
+		stable bool
+	}
+	refs := map[string]refT{}
+	anyPanic := false
 	for _, e := range f.entries {
-		full := make([]res[T], reps)
-		for k := range full {
-			full[k] = call(st, e.f, f.build(seq))
+		if anyPanic && e.sameAs != "" {
+			st.lastOutcome += "-"
+			continue // the case is a violation already; the graph would only recover the same panic
+		}
+		full := make([]res[T], 0, reps)
+		canons := make([]string, 0, reps)
+		for k := 0; k < reps; k++ {
+			r := call(st, e.f, f.build(seq))
+			full = append(full, r)
+			canons = append(canons, r.canon())
+			if r.pan != "" {
+				anyPanic = true
+				break // a panic is a violation whatever the other repetitions do
+			}
 		}
 		switch {
 		case full[0].pan != "":
@@ -196,8 +223,8 @@ func (f *fam[T]) Eval(seq []int, reps int, st *stats) []failure {
 			}
 		}
 		differ := false
-		for k := 1; k < reps; k++ {
-			if full[k].canon() != full[0].canon() {
+		for k := 1; k < len(canons); k++ {
+			if canons[k] != canons[0] {
 				differ = true
 			}
 		}
@@ -205,33 +232,39 @@ func (f *fam[T]) Eval(seq []int, reps int, st *stats) []failure {
 			add("nondeterministic", e.name, "%s(%s) gave different results on %d repetitions of the same chunk sequence", e.name, f.labels(seq), reps)
 			continue // no stable reference to compare re-chunkings with
 		}
-		ref := full[0]
-		for i := 1; i < n; i++ {
-			p := call(st, e.f, f.build(seq[:i]))
-			if p.pan != "" {
-				if !sawPanic {
+		ref, refCanon := full[0], canons[0]
+		refs[e.name] = refT{ref, refCanon, true}
+		if sawPanic {
+			continue // the panic is the violation; nothing to compare re-chunkings with
+		}
+		if e.sameAs != "" {
+			if o, ok := refs[e.sameAs]; ok && o.stable && o.r.pan == "" && o.canon != refCanon {
+				add("entry-points-differ", e.name, "%s(%s) = %s but %s of the same chunks = %s", e.name, f.labels(seq), ref.show(), e.sameAs, o.r.show())
+			}
+		} else {
+			for i := 1; i < n; i++ {
+				p := call(st, e.f, f.build(seq[:i]))
+				if p.pan != "" {
 					add("panic", e.name, "%s(%s) panicked: %s", e.name, f.labels(seq[:i]), p.pan)
+					break // reported on its own (shorter) sequence as well
 				}
-				continue // reported on its own (shorter) sequence
-			}
-			if p.err != nil {
-				if !ref.failed() {
-					add("prefix-fails-only", e.name, "%s fails on the prefix %s (%v) but succeeds on the whole sequence %s = %s",
-						e.name, f.labels(seq[:i]), p.err, f.labels(seq), ref.show())
+				if p.err != nil {
+					if !ref.failed() {
+						add("prefix-fails-only", e.name, "%s fails on the prefix %s (%v) but succeeds on the whole sequence %s = %s",
+							e.name, f.labels(seq[:i]), p.err, f.labels(seq), ref.show())
+					}
+					continue
 				}
-				continue
-			}
-			rest := append([]T{p.val}, f.build(seq[i:])...)
-			r := call(st, e.f, rest)
-			if r.pan != "" {
-				if !sawPanic {
+				rest := append([]T{p.val}, f.build(seq[i:])...)
+				r := call(st, e.f, rest)
+				if r.pan != "" {
 					add("panic", e.name, "%s(concat(%s) ++ %s) panicked: %s", e.name, f.labels(seq[:i]), f.labels(seq[i:]), r.pan)
+					break
 				}
-				continue
-			}
-			if r.canon() != ref.canon() {
-				add("rechunk", e.name, "%s: concatenating %s first and then %s gives %s, but concatenating %s at once gives %s",
-					e.name, f.labels(seq[:i]), f.labels(seq[i:]), r.show(), f.labels(seq), ref.show())
+				if r.canon() != refCanon {
+					add("rechunk", e.name, "%s: concatenating %s first and then %s gives %s, but concatenating %s at once gives %s",
+						e.name, f.labels(seq[:i]), f.labels(seq[i:]), r.show(), f.labels(seq), ref.show())
+				}
 			}
 		}
 		if !ref.failed() && f.model != nil {
